@@ -642,6 +642,11 @@ func (s *State) havocRegion(r *Region, why string) {
 	cur := s.contents(o)
 	if r.Off != nil {
 		av := cur.(*ArrayV)
+		if av.Arr == nil {
+			// table of non-scalars: every element becomes arbitrary
+			s.heap[o.ID] = &ArrayV{N: av.N, Elem: av.Elem, Name: s.freshName("havoc." + why + ".table")}
+			return
+		}
 		fv := &ArrVar{Name: s.freshName("havoc." + why), W: av.Arr.ElemW()}
 		lo := r.Off
 		s.heap[o.ID] = &ArrayV{Arr: &ArrFn{Base: av.Arr, Lo: r.Off, N: r.Len, F: func(rel *Term) *Term { return fv.Select(Add(lo, rel)) }}, N: av.N, Elem: av.Elem}
